@@ -53,7 +53,7 @@ def cases(tier, seed, shard, nshards):
                 idx += 1
                 if idx % nshards != shard:
                     continue
-                if tier == "quick" and n == 3 and (idx // nshards + seed) % 4:
+                if tier == "quick" and n == 3 and (idx // nshards + seed) % 8:
                     continue
                 for mode in (False, True):
                     specs = [UNIVERSE[i] for i in sel]
@@ -62,7 +62,7 @@ def cases(tier, seed, shard, nshards):
                         specs = [s + [{"line": 100 - 10 * j}] for j, s in enumerate(specs)]
                     yield {"lib": specs, "order": ORDERS[oi], "pc": mode}
     r = rng_for(seed, shard, "c16")
-    for _ in range(tier_pick(tier, 24000, 1200000) // nshards):
+    for _ in range(tier_pick(tier, 12000, 1200000) // nshards):
         n = r.randint(4, 40) if r.random() < 0.99 else r.randint(257, 300)
         specs = []
         for j in range(n):
